@@ -115,6 +115,12 @@ Theorem C01_table_index_bijective : forall {D} (deqb : D -> D -> bool), (forall 
 Proof. exact (fun D deqb H l d d' Hd Hd' => conj (index_of_lt deqb H l d Hd) (index_of_inj deqb H l d d' Hd Hd')). Qed.
 Print Assumptions C01_table_index_bijective.
 
+(* DE-DUPLICATION: chunks whose digests are already in the table add no entry, in any number and order *)
+Theorem C01_table_known_suffix : forall {D} (deqb : D -> D -> bool), (forall x y, deqb x y = true <-> x = y) ->
+  forall ds later, (forall d, In d later -> In d ds) -> table_of deqb (ds ++ later) = table_of deqb ds.
+Proof. exact (fun D deqb H => table_known_suffix deqb H). Qed.
+Print Assumptions C01_table_known_suffix.
+
 Example C01_table_concrete :
   let t1 := table_of N.eqb [5;3;5]%N in
   let t2 := table_of N.eqb ([5;3;5] ++ [7;3])%N in
